@@ -1,0 +1,56 @@
+//! Verification hooks. Compiled only with `--cfg pyxis_verif`; inert unless a
+//! harness installs a schedule or an event sink on the current thread.
+
+use std::cell::RefCell;
+
+use crate::grammar::ItemPath;
+
+/// A resolution schedule: given the unresolved paths (sorted), return them in
+/// the order in which they should be attempted. Must be a pure function of its
+/// argument, because `SemanticState::build` compares two calls for equality.
+pub type Schedule = Box<dyn Fn(Vec<ItemPath>) -> Vec<ItemPath>>;
+
+#[derive(Debug, Clone, PartialEq, Eq)]
+pub enum Event {
+    PassBegin(Vec<ItemPath>),
+    AttemptBegin(ItemPath),
+    /// `true` when the attempt resolved the item, `false` when it deferred
+    AttemptEnd(ItemPath, bool),
+    PassEnd,
+    /// path, category (debug name), whether an existing entry was replaced
+    ItemAdded(ItemPath, String, bool),
+}
+
+thread_local! {
+    static SCHEDULE: RefCell<Option<Schedule>> = const { RefCell::new(None) };
+    static SINK: RefCell<Option<Vec<Event>>> = const { RefCell::new(None) };
+}
+
+pub fn set_schedule(schedule: Option<Schedule>) {
+    SCHEDULE.with(|s| *s.borrow_mut() = schedule);
+}
+
+pub fn start_recording() {
+    SINK.with(|s| *s.borrow_mut() = Some(vec![]));
+}
+
+pub fn take_events() -> Vec<Event> {
+    SINK.with(|s| s.borrow_mut().take().unwrap_or_default())
+}
+
+pub(crate) fn scheduled(mut unresolved: Vec<ItemPath>) -> Option<Vec<ItemPath>> {
+    SCHEDULE.with(|s| {
+        let s = s.borrow();
+        let f = s.as_ref()?;
+        unresolved.sort();
+        Some(f(unresolved))
+    })
+}
+
+pub(crate) fn emit(event: impl FnOnce() -> Event) {
+    SINK.with(|s| {
+        if let Some(events) = s.borrow_mut().as_mut() {
+            events.push(event());
+        }
+    });
+}
